@@ -89,7 +89,7 @@ fn main() {
                     if let Some(v) = &s.cur_v { println!("   CUR  {:?}", vharness::proj::render_trace(v)); }
                     if let Some(v) = &s.prev_v { println!("   PREV {:?}", vharness::proj::render_trace(v)); }
                     if let Some(v) = &s.out_v { println!("   OUT  {:?}", vharness::proj::render_trace(v)); }
-                    for e in &s.out.events { if !matches!(e, air::verif_hooks::Event::StreamAdd { .. } | air::verif_hooks::Event::ScopeStart { .. } | air::verif_hooks::Event::ScopeEnd { .. }) { println!("      ev {:?}", e); } }
+                    for e in &s.out.events { if !matches!(e, air::verif_hooks::Event::StreamAdd { .. } | air::verif_hooks::Event::ScopeStart { .. } | air::verif_hooks::Event::ScopeSpan { .. } | air::verif_hooks::Event::StreamUse { .. } | air::verif_hooks::Event::ScopeEnd { .. }) { println!("      ev {:?}", e); } }
                 }
             }
         }
